@@ -170,8 +170,8 @@ def run(ctx):
         m = rng.choice(models)
         expect_model(f"1.0 K+ pi- {m} 3;", m, False, [3.0], ["K+", "pi-"], extra=extra, calls=calls, label="published-with-registered", nontrivial=True)
         # a word extending the registered name with a word character is not that model
-        if u[-1] in WORD:
-            near = u + rng.choice(["x", "_", "7"])
+        if True:
+            near = u + rng.choice(["x", "_", "7", "X"])
             if spec_lex_model(models + extra, near + " ") is None and near not in extra:
                 expect_reject(f"1.0 K+ pi- {near};", extra=extra, label="near-miss-of-registered")
     # near-miss unknown words
